@@ -1449,7 +1449,11 @@ def run_c11(ctx) -> Corr:
                 "oracle = ids handed out over the whole life are in range, pairwise distinct and distinct from every id the "
                 "object ever had registered (restored, presented, handed out); compared with the model on the ids view (a "
                 "successful load = gnode per file entry). non-trivial there = a load of a file lacking registered ids, and "
-                "every id request after one")
+                "every id request after one. Plus restarts of the controller (a NEW Gateway object on the same file) after sessions "
+                "- real `async with gateway:` statements in a task - that end in every way such a statement can end (body ends, "
+                "library error from the listen loop or an exception of the application leaves the block, task cancelled): ids "
+                "stay distinct over all runs as long as no context statement reported a failure of its own (final save) and "
+                "nobody else touched the file")
     rng = lib.rng_for(ctx.seed, "c11")
     hists = [h for _, h in corpus_histories("C11")]
     base = [0, 1, 2, 253, 254, 255]
